@@ -111,9 +111,24 @@ class Item:
         MON.emit("get", self.serial, "ref")
         return self._ref
 
+    @property
+    def name(self):
+        MON.emit("get", self.serial, "name")
+        return f"item{self.serial}"
+
+    @property
+    def label(self):
+        MON.emit("get", self.serial, "label")
+        return f"item{self.serial}"
+
     def m(self, k=0):
         MON.emit("call", self.serial, "m")
         return self._a + k
+
+    def __str__(self):
+        MON.emit("str", self.serial)
+        return repr(self)
+
 
     def __hash__(self):
         return hash((self.serial, Item.salt))
